@@ -627,6 +627,32 @@ def _lookup_oracle(ctx, g, model, st, si, version):
             ctx.violation("segment-lookup-differs/%s" % st["op"], "after step %d %r: segment(%r) is not line(%r)"
                           % (si, st, n, n), prop="C09")
             return
+    # line objects obtained earlier (placeholders included): one which still claims to belong to
+    # the Gfa is the line which the Gfa returns for its identifier
+    kept = g.__dict__.setdefault("_verif_kept_objects", {})
+    for oid, obj in list(kept.items()):
+        try:
+            conn, nm = obj.is_connected(), obj.name
+        except Exception:
+            continue
+        ctx.count("kept_objects_checked")
+        if conn and isinstance(nm, str) and nm != "*":
+            cur = g.line(nm)
+            if cur is not obj:
+                ctx.violation("replaced-line-object-still-connected/%s/%s"
+                              % (st["op"], "placeholder" if obj.virtual else obj.record_type),
+                              "after step %d %r: an object obtained earlier for %r (%s) claims to be connected, "
+                              "but line(%r) is another object" % (si, st, nm, O.safe_str(obj), nm), prop="C02")
+                return
+        if not conn:
+            del kept[oid]
+    for n in list(want) + [m for x in model.recs for m, role in T.mentions(x)]:
+        try:
+            l = g.line(n)
+        except Exception:
+            l = None
+        if l is not None and len(kept) < 200:
+            kept[id(l)] = l
     # placeholders exist exactly for the identifiers which are mentioned but not defined
     mentioned = {m for x in model.recs for m, role in T.mentions(x)}
     try:
